@@ -40,7 +40,7 @@ SignWith(d, eb, ks, j) == IF j > Len(ks) THEN <<"none">>
                           ELSE IF j = Len(ks) THEN SignDigest(d, eb, BFromBE(ks[j]))
                           ELSE IF SignDigest(d, eb, BFromBE(ks[j]))[1] = "retry" THEN SignWith(d, eb, ks, j+1) ELSE <<"early">>
 SignOk(e, sg) == e.outcome = "ok" /\ sg[1] = "ok" /\ e.sig = SigBytes(sg) /\ InRangeN(sg[2]) /\ InRangeN(sg[3])
-SignClass(e) == IF e.mode = "fixed" THEN "fixed-nonce" ELSE "free-nonce"
+SignClass(e) == IF e.op = "sm2.sign_digest" THEN "retry." \o e.fault ELSE IF e.mode = "fixed" THEN "fixed-nonce" ELSE "free-nonce"
 SignKind(e, sg) == IF Crash(e) THEN e.outcome ELSE IF e.outcome # "ok" THEN "sign-error" ELSE IF sg[1] # "ok" THEN "nonce-handling" ELSE "wrong-signature"
 Sign3(e, sg) == Stay /\ tlast' = Verdict(e, SignOk(e, sg), SignClass(e), SignKind(e, sg))
 Sign2(e, d, pt, m) == Sign3(e, SignWith(d, IF e.op = "sm2.sign" THEN EDigest(e.uid, pt, m) ELSE e.e, e.ks, 1))
